@@ -204,6 +204,32 @@ def npdu_variant(rng: random.Random, tpdu: bytes, kind: str) -> int | None:
 NPDU_VARIANTS = ("consistent", "consistent", "consistent", "plus1", "minus1", "zero", "is255")
 
 
+def wellformed_short_shapes() -> list[bytes]:
+    """One well-formed frame per body shape of the management message codes, and the shortest L_Data shapes."""
+    dev, ip = 0x0000, 0x000B  # device object, KNXnet/IP parameter object (both supported object types)
+    return [
+        m_prop(0xFC, dev, 1, 11, 1, 1),                          # M_PropRead.req
+        m_prop(0xFB, ip, 1, 52, 1, 1, b"\x11\x22"),               # M_PropRead.con, positive
+        m_prop(0xFB, ip, 1, 52, 2, 1, b"\x11\x22\x33\x44"),       # M_PropRead.con, two elements
+        m_prop(0xFB, ip, 1, 52, 0, 1, b"\x07"),                   # M_PropRead.con, negative (error code)
+        m_prop(0xF6, ip, 1, 52, 1, 1, b"\x11\x22"),               # M_PropWrite.req
+        m_prop(0xF5, ip, 1, 52, 1, 1),                            # M_PropWrite.con, positive
+        m_prop(0xF5, ip, 1, 52, 0, 1, b"\x05"),                   # M_PropWrite.con, negative (error code)
+        m_prop(0xF5, dev, 1, 11, 0, 0, b"\x00"),
+        m_prop(0xF7, ip, 1, 52, 1, 1, b"\x01"),                   # M_PropInfo.ind
+        m_prop(0xF7, ip, 1, 52, 0, 1, b"\x09"),                   # M_PropInfo.ind with an error payload (parsed leniently)
+        bytes((0xF1,)), bytes((0xF0,)), bytes((0xF1, 0x00)),      # M_Reset.req / .ind
+        m_prop(0xF8, ip, 1, 52, 1, 1, b"\x01"),                   # M_FuncPropCommand.req
+        m_prop(0xF9, ip, 1, 52, 1, 1),                            # M_FuncPropStateRead.req
+        m_prop(0xFA, ip, 1, 52, 1, 1, b"\x00\x01"),               # M_FuncProp*.con
+        l_data(L_DATA_IND, tpdu=b"\x00\x81"),                     # group value write, 6 bit
+        l_data(L_DATA_CON, ctrl1=0xBD, tpdu=b"\x00\x80\x0c\x1a"),
+        l_data(L_DATA_REQ, ctrl2=0x60, dst=0x1105, tpdu=b"\x81"),  # T_Disconnect
+        l_data(L_DATA_IND, ctrl2=0x60, dst=0x1105, tpdu=b"\x43\xd5\x00\x0b\x10\x01"),  # connected PropertyValueRead
+        l_data(L_DATA_IND, info=b"\x03\x01\xaa", tpdu=b"\x00\x00"),
+    ]
+
+
 def structured_frames(rng: random.Random, full: bool, budget: int | None = None) -> Iterator[tuple[str, bytes]]:
     """Yield (origin tag, raw frame).  Deterministic sweeps first, then seeded combinations."""
     # S1: every message code x tiny / plausible bodies, M_Prop bodies of every length 0..12
@@ -282,6 +308,14 @@ def structured_frames(rng: random.Random, full: bool, budget: int | None = None)
             n += 1
         if budget is not None and n >= budget:
             break
+
+    # S6: every well-formed M_Prop* / M_Reset / M_FuncProp shape and short L_Data shape x every octet position x every value 0..255
+    for shape in wellformed_short_shapes():
+        yield "S6", shape
+        for pos in range(len(shape)):
+            for v in range(256):
+                if v != shape[pos]:
+                    yield "S6", shape[:pos] + bytes((v,)) + shape[pos + 1:]
 
     # S5: truncations and single-octet substitutions of valid frames; raw noise
     seeds = [
